@@ -44,28 +44,44 @@ theorem ite_true_or (P : Prop) [Decidable P] (b : Bool) : (if P then true else b
 theorem ite_range_or (P : Prop) [Decidable P] (b : Bool) : (if P then true else b) = (decide P || b) :=
   ite_true_or P b
 
+theorem classMatch_nil (c : Nat) : classMatch c [] = false := rfl
+
+theorem classMatch_one (c x : Nat) : classMatch c [x] = if c = x then true else false := by
+  simp [classMatch, classMatchAux]
+
+theorem classMatch_range (c x hi : Nat) (r : List Nat) :
+    classMatch c (x :: 45 :: hi :: r) = if x ≤ c ∧ c ≤ hi then true else classMatch c r := by
+  simp [classMatch, classMatchAux]
+
+theorem classMatch_single (c x d : Nat) (r : List Nat) (hd : d ≠ 45) :
+    classMatch c (x :: d :: r) = if c = x then true else classMatch c (d :: r) := by
+  simp [classMatch, classMatchAux, hd]
+
+theorem classMatch_two (c x y : Nat) : classMatch c [x, y] = if c = x then true else classMatch c [y] := by
+  simp [classMatch, classMatchAux]
+
 theorem classMatch_eq (c : Nat) : ∀ (n : Nat) (body : List Nat), body.length ≤ n →
     classMatch c body = inItems c (itemsOf body)
-  | _, [], _ => by simp [classMatch, itemsOf, inItems]
+  | _, [], _ => by simp [classMatch_nil, itemsOf, inItems]
   | 0, _ :: _, h => by simp at h
   | n + 1, [x], _ => by
-    simp only [classMatch, itemsOf_one, inItems, List.any_cons, List.any_nil, Bool.or_false, ite_true_or,
+    simp only [classMatch_one, itemsOf_one, inItems, List.any_cons, List.any_nil, Bool.or_false, ite_true_or,
       point_range]
   | n + 1, [x, y], _ => by
-    simp only [classMatch, itemsOf_two, inItems, List.any_cons, List.any_nil, Bool.or_false, ite_true_or,
-      point_range]
+    simp only [classMatch_two, classMatch_one, itemsOf_two, inItems, List.any_cons, List.any_nil, Bool.or_false,
+      ite_true_or, point_range]
   | n + 1, x :: d :: hi :: r, h => by
     simp only [List.length_cons] at h
     by_cases hd : d = 45
     · subst hd
-      rw [itemsOf_range]
+      rw [itemsOf_range, classMatch_range]
       have ih := classMatch_eq c n r (by omega)
-      simp only [classMatch, if_true, inItems, List.any_cons, ite_true_or] at ih ⊢
+      simp only [inItems, List.any_cons, ite_true_or] at ih ⊢
       rw [ih]
       simp [Bool.decide_and]
-    · rw [itemsOf_single x d (hi :: r) hd]
+    · rw [itemsOf_single x d (hi :: r) hd, classMatch_single c x d (hi :: r) hd]
       have ih := classMatch_eq c n (d :: hi :: r) (by simp only [List.length_cons]; omega)
-      simp only [classMatch, hd, if_false, inItems, List.any_cons, ite_true_or, point_range] at ih ⊢
+      simp only [inItems, List.any_cons, ite_true_or, point_range] at ih ⊢
       rw [ih]
 
 theorem classMatch_items (c : Nat) (body : List Nat) : classMatch c body = inItems c (itemsOf body) :=
